@@ -99,6 +99,42 @@ def r1(ctx):
     rets = [n for n in walk_function(dps.node) if isinstance(n, ast.Return) and n.value is not None and not (isinstance(n.value, ast.Constant) and n.value.value is None)]
     okf = bool(flag) and bool(rets) and all(("call.phased", True) in guard_atoms(cfgd, cfgd.node_of(r_)) for r_ in rets)
     ctx.ob(ps.qual, "ps-phased-flag", okf, ps.loc(), "the phased flag is set on write and required on read" if okf else "phased flag is not set by _set_PS or not required by _extract_GT_PS_phase")
+    # the "no phase" value of HP: pysam writes None as an EMPTY string for this String field, which cannot be decoded
+    wr = ctx.func(W + ".write")
+    rmf = ctx.func(W + "._remove_existing_phasing")
+    for f in (wr, rmf):
+        for st_ in util.store_sites(f.node):
+            if st_.kind != "subscript":
+                continue
+            k = util.const_key(st_.target)
+            tagvar = u(st_.target.slice) == "self.tag"
+            loopkeys = None
+            if isinstance(st_.target.slice, ast.Name):
+                from rules.c04 import _loop_literal_keys
+
+                loopkeys = _loop_literal_keys(st_, st_.target.slice.id)
+            may_be_hp = k == "HP" or tagvar or (loopkeys is not None and "HP" in loopkeys)
+            if not may_be_hp:
+                continue
+            v = st_.value
+            clears_with_none = isinstance(v, ast.Constant) and v.value is None
+            if k == "HP" and not clears_with_none and not (isinstance(v, ast.Constant)):
+                continue  # a real HP value
+            okm = not clears_with_none
+            if loopkeys is not None and isinstance(v, ast.Name):
+                # for tag, missing in (("HP", "."), ...): the value paired with HP must be "."
+                lp = st_.stmt
+                while lp is not None and not (isinstance(lp, ast.For) and isinstance(lp.iter, (ast.Tuple, ast.List))):
+                    lp = getattr(lp, "parent", None)
+                pairs = {e.elts[0].value: e.elts[1] for e in lp.iter.elts if isinstance(e, ast.Tuple) and len(e.elts) == 2 and isinstance(e.elts[0], ast.Constant)} if lp is not None else {}
+                okm = "HP" in pairs and isinstance(pairs["HP"], ast.Constant) and pairs["HP"].value == "."
+            elif tagvar and isinstance(v, ast.IfExp):
+                okm = atoms(v.test, True) == {("'HP' == self.tag", True)} and isinstance(v.body, ast.Constant) and v.body.value == "."
+            ctx.ob(f.qual, "hp-missing-value:%s" % st_.text()[:50], okm, f.loc(st_.stmt), "a cleared HP is written as '.', which the decoder maps to 'no phase'" if okm else "%s can store None into the String field HP: htslib writes an empty value that _extract_HP_phase cannot decode in multi-sample files" % st_.text()[:60])
+    hpv = util.single_def(dec.node, "hp")
+    tests = [n for n in walk_function(dec.node) if isinstance(n, ast.If) and any(isinstance(b, ast.Return) and (b.value is None or (isinstance(b.value, ast.Constant) and b.value.value is None)) for b in n.body)]
+    okd = bool(tests) and "hp == ('.',)" in u(tests[0].test) and "hp is None" in u(tests[0].test)
+    ctx.ob(dec.qual, "hp-missing-value-decoded", okd, dec.loc(), "the decoder treats None and ('.',) as 'no HP phase'" if okd else "the decoder does not map a missing HP value to 'no phase'")
     # slot binding
     init = ctx.func(W + ".__init__")
     slot = [s for s in util.store_sites(init.node) if s.kind == "attr" and s.target.attr == "_set_phasing_tags"]
@@ -258,6 +294,15 @@ def r4(ctx):
             ctx.ob(fi.qual, "pseudo-read-guard:%s:%s%s" % (branch, "" if atom[1] else "not ", atom[0]), okg, fi.loc(c), why if okg else "add_variant is not dominated by `%s%s`" % ("" if atom[1] else "not ", atom[0]))
         okp = any("len(%s.as_vector())" % gt in t for t, p in ga)
         ctx.ob(fi.qual, "pseudo-read-guard:%s:ploidy" % branch, okp, fi.loc(c), "calls of another ploidy are skipped" if okp else "add_variant is not dominated by the ploidy test")
+    # the pseudo read carries the caller's source id and numeric sample id in the slots core.Read expects
+    rc = [c for c in ctx.prog.calls_in(fi.node) if u(c.func) == "Read"]
+    cin = ctx.prog.functions.get("whatshap.core.Read.__cinit__")
+    want = ["name", "mapq", "source_id", "sample_id"]
+    slots_ok = True
+    if cin is not None:
+        slots_ok = util.params_of(cin.node)[1:5] == want
+    ok = len(rc) == 1 and slots_ok and [u(a) for a in rc[0].args[1:4]] == ["mapq", "source_id", "numeric_sample_id"] and all(p in util.params_of(fi.node) for p in ("mapq", "source_id", "numeric_sample_id"))
+    ctx.ob(fi.qual, "pseudo-read-identity", ok, fi.loc(rc[0]) if rc else fi.loc(), "pseudo reads are created as Read(name, mapq, source_id, numeric_sample_id): they belong to the requested sample and to the VCF's source id" if ok else "the pseudo read is created as %s: its sample/source identity is not the caller's (reads are attributed to another individual)" % (u(rc[0]) if rc else "?"))
     ys = [n for n in walk_function(fi.node) if isinstance(n, ast.Expr) and isinstance(n.value, ast.Yield)]
     ok = len(ys) == 1
     if ok:
@@ -273,4 +318,4 @@ RULES = [
     ("C09.R3", "GT normalisation (sorted) precedes the setter for both tags", r3),
     ("C09.R4", "phased blocks -> complementary pseudo reads", r4),
 ]
-FLOORS = {"C09.R1": 12, "C09.R2": 7, "C09.R3": 2, "C09.R4": 11}
+FLOORS = {"C09.R1": 15, "C09.R2": 7, "C09.R3": 2, "C09.R4": 12}
